@@ -27,14 +27,27 @@ CHECKS = {
             "itertools.", "explicit-state bounded exhaustive exploration, itertools oracle"),
     "C09": ("model_checking", "E1", "rpad/rpad_and_clip (targets 0..4, every axis), fillna and the option-encoding conversions on arrays "
             "with options at any level in all five option encodings (bit masks with garbage padding bits).", "explicit-state bounded exhaustive exploration, reference-model oracle"),
+    "C08": ("model_checking", "E1", "Ordered pairs of arrays over a type menu (same/different types, EmptyArray, options, records, "
+            "unions; canonical and one non-canonical encoding each) under mergeable/merge/mergemany/merge_as_union/reverse merge against "
+            "list concatenation and the type rule; all 13x13 numeric dtype pairs against numpy.concatenate; numbers_to_type over all "
+            "dtype pairs with boundary values against numpy.astype; simplify on every directly nested option/indexed/union layout of "
+            "depth <= 2 (thorough 3).", "explicit-state bounded exhaustive exploration, NumPy / list-concatenation oracle"),
+    "C10": ("model_checking", "E1", "Record-bearing arrays x encodings x (field path, positional slice) pairs executed in both orders and "
+            "as one tuple, field-list projection, setitem_field; both orders must equal the reference projection of the reference "
+            "slice.", "explicit-state bounded exhaustive exploration, reference-model + commutation oracle"),
     "C11": ("model_checking", "E1", "Every layout of a grammar with all small index vectors (valid and invalid) is judged by the "
             "implementation and by the documented rules; every structural operation on every valid layout of the value universe x "
             "encodings must return a layout that passes the validity check.", "explicit-state bounded exhaustive exploration of layouts x operations, documented-rules oracle"),
+    "C12": ("model_checking", "E1/san", "AddressSanitizer+UBSan build of /repo: bounded operation histories (two operations sharing one "
+            "input, input released, heap churned and poisoned, results re-read) over the value universe x encodings with input bytes "
+            "compared before/after, plus the check/print/convert entry points on the full valid+invalid layout grammar; a signal, "
+            "sanitizer report, hang, modified input or unstable result is a violation.",
+            "bounded exhaustive exploration of operation histories under sanitizers (ASan/UBSan as the memory oracle)"),
 }
 
 ENGINES = [
     {"name": "E1", "path": "mc/e1.py mc/opalpha.py model/ checks/c0*.py checks/c11_validity.py",
-     "serves_properties": sorted(k for k, v in CHECKS.items() if v[1] == "E1"),
+     "serves_properties": sorted(k for k, v in CHECKS.items() if v[1].startswith("E1")),
      "kind_free_text": "explicit-state exploration of (physical layout, operation) transitions on the real libawkward built from /repo, "
                        "against reference models that never call the library"},
 ]
